@@ -3,7 +3,7 @@
    Coq inductive datatypes.  No Extract Constant / Extract Inductive of our own. *)
 Require Extraction.
 Require Import ExtrOcamlBasic.
-From Sim Require Import Map Variant Current Kernel KScript Queue Net SimState Sim HttpParse Pcap.
+From Sim Require Import Map Variant Current Kernel KScript Queue Net SimState Sim Script HttpParse Pcap.
 Extraction Language OCaml.
 Extraction "simmodel.ml" current pinned run_kscript visible run_script svisible pcap_bytes net0 pat q_new
   parse_request find_request_len trim lower_case normalize
